@@ -242,10 +242,11 @@ pub fn judge(dir: &Path, c: &Case, obs: &mut Obs) -> Judge {
 }
 
 pub fn strategy(upload: bool) -> BoxedStrategy<Case> {
-    (any::<bool>(), prop_oneof![2 => Just(None), 1 => Just(Some(8u32)), 1 => Just(Some(511u32)), 2 => Just(Some(1024u32)), 1 => Just(Some(1428u32)), 1 => Just(Some(8192u32)), 1 => (8u32..=16384).prop_map(Some)], prop_oneof![2 => Just(None), 3 => (1u16..=6).prop_map(Some)], 0usize..8, any::<u16>(), proptest::collection::vec(0u8..3, 0..10), any::<u64>())
+    (any::<bool>(), prop_oneof![2 => Just(None), 1 => Just(Some(8u32)), 1 => Just(Some(511u32)), 2 => Just(Some(1024u32)), 1 => Just(Some(1428u32)), 1 => Just(Some(8192u32)), 1 => (8u32..=16384).prop_map(Some), 1 => prop::sample::select(vec![65464u32, 65463, 65461, 65460, 32768]).prop_map(Some)], prop_oneof![2 => Just(None), 3 => (1u16..=6).prop_map(Some)], 0usize..8, any::<u16>(), proptest::collection::vec(0u8..3, 0..10), any::<u64>())
         .prop_map(move |(single, blk, ws, blocks, r, quirks, seed)| {
             let b = blk.unwrap_or(512) as usize;
-            let blocks = if b > 4096 { blocks.min(3) } else { blocks };
+            let blocks = if b > 16384 { blocks.min(2) } else if b > 4096 { blocks.min(3) } else { blocks };
+            let ws = if b > 16384 { None } else { ws };
             let len = blocks * b + if r % 5 == 0 { 0 } else { r as usize % b };
             Case { upload, single, blk, ws, len, quirks, seed, resend_request: seed % 5 == 0 }
         })
